@@ -309,9 +309,9 @@ func TestVerif_C20_Parser(t *testing.T) {
 			if ok {
 				run.Violation("parser", "C20|parser|well-formed-token-rejected|"+class, fmt.Sprintf("%q rejected: %v", s, err), map[string]any{"input": s})
 			}
-			if !c20IsClientError(err) {
-				run.Count("rejected_without_http_status", 1)
-				run.Distinct("non_http_error_inputs", class)
+			if st, _ := base.ErrorAsHTTPStatus(err); st < 400 || st > 499 {
+				// the REST and replication layers turn this error into the response status
+				run.Violation("parser", "C20|parser|malformed-token-not-a-client-error|"+class, fmt.Sprintf("%q rejected with %q, which maps to HTTP %d instead of a 4xx client error", s, err, st), map[string]any{"input": s, "status": st})
 			}
 			if ok {
 				continue
